@@ -210,7 +210,11 @@ func buildCaller() (*asm.B, []asm.MethodSpec) {
 	b.InitSlot(0, 4)
 	b.Op(opcode.NEWARRAY0).Int(15).Str("destroy").Bytes(nativehashes.ContractManagement.BytesBE()).Syscall("System.Contract.Call").Op(opcode.DROP)
 	b.Op(opcode.LDARG3, opcode.LDARG2, opcode.LDARG1, opcode.LDARG0).Syscall("System.Contract.Call").Op(opcode.RET)
-	return b, []asm.MethodSpec{{Name: "call", Label: "call", Params: 4}, {Name: "dcall", Label: "dcall", Params: 4}}
+	// upd: the contract replaces its own manifest (ContractManagement.update(null, manifest)).
+	b.Label("upd")
+	b.InitSlot(0, 1)
+	b.Op(opcode.LDARG0, opcode.PUSHNULL).Int(2).Op(opcode.PACK).Int(15).Str("update").Bytes(nativehashes.ContractManagement.BytesBE()).Syscall("System.Contract.Call").Op(opcode.RET)
+	return b, []asm.MethodSpec{{Name: "call", Label: "call", Params: 4}, {Name: "dcall", Label: "dcall", Params: 4}, {Name: "upd", Label: "upd", Params: 1}}
 }
 
 func (w *world) deployPermissionFamily() error {
@@ -248,13 +252,24 @@ func (w *world) deployPermissionFamily() error {
 			}
 			// harness constant, never matches a callee of the family: the right to destroy itself (dcall)
 			mp := manifest.NewPermission(manifest.PermissionHash, nativehashes.ContractManagement)
-			mp.Methods.Value = []string{"destroy"}
+			mp.Methods.Value = []string{"destroy", "update"}
 			m.Permissions = append(m.Permissions, *mp)
 		})
 		if err != nil {
 			return err
 		}
 		ccs = append(ccs, c)
+		// the manifest the caller can update itself to: the harness constant only, no permission for the family
+		b, ms = buildCaller()
+		bare, err := asm.BuildContract(cs.Name, b, ms, func(m *manifest.Manifest) {
+			mp := manifest.NewPermission(manifest.PermissionHash, nativehashes.ContractManagement)
+			mp.Methods.Value = []string{"destroy", "update"}
+			m.Permissions = []manifest.Permission{*mp}
+		})
+		if err != nil {
+			return err
+		}
+		w.csBare = append(w.csBare, bare.Manifest)
 	}
 	if w.cs, err = w.deployAll(deployer, ccs); err != nil {
 		return err
@@ -410,7 +425,7 @@ type PermCallCase struct {
 	Callee int    `json:"callee"`          // 0..3
 	Method string `json:"method"`          // m | n | s
 	Flags  int    `json:"flags"`           // flags the caller requests for the callee
-	After  string `json:"after,omitempty"` // "destroy": the caller destroys itself before making the call
+	After  string `json:"after,omitempty"` // "destroy": the caller destroys itself before making the call; "update": see below
 }
 
 func genPermCallCase(t *rapid.T) PermCallCase {
@@ -419,7 +434,7 @@ func genPermCallCase(t *rapid.T) PermCallCase {
 		Callee: uniform(t, 4, "callee"),
 		Method: pick(t, []string{"m", "m", "n", "n", "s"}, "method"),
 		Flags:  pick(t, []int{15, 15, 15, 5, 1, 0}, "flags"),
-		After:  pick(t, []string{"", "", "destroy"}, "after"),
+		After:  pick(t, []string{"", "", "destroy", "update", "update"}, "after"),
 	}
 }
 
@@ -441,6 +456,34 @@ func checkPermCallCase(c PermCallCase, o *vt.Obs) error {
 	if c.Method != "s" && vt.Known(knownGroupKey) && onlyGroupListDenies(spec.Perms, callee.Name, groups, c.Method) {
 		o.Excluded()
 		o.Label("excluded/known-group-finding")
+		return nil
+	}
+	if c.After == "update" {
+		// One transaction: the caller calls the callee, replaces its own manifest by one without any permission for
+		// the family, and is asked to make the same call again: the second call is judged by the new manifest.
+		if c.Method == "s" || !specAllowed(spec.Perms, callee.Name, groups, c.Method) || c.Flags != 15 {
+			return nil
+		}
+		script := appCall(caller.Hash, "call", callflag.All, callee.Hash.BytesBE(), c.Method, int64(c.Flags), []any{})
+		script = append(script, byte(opcode.DROP))
+		script = append(script, appCall(caller.Hash, "upd", callflag.All, w.csBare[c.Caller])...)
+		script = append(script, byte(opcode.DROP))
+		script = append(script, appCall(caller.Hash, "call", callflag.All, callee.Hash.BytesBE(), c.Method, int64(c.Flags), []any{})...)
+		ic, err := w.newIC(trigger.Application, w.plainTx(nil, 0))
+		if err != nil {
+			return err
+		}
+		ic.VM.LoadWithFlags(script, callflag.All)
+		out := w.run(ic, caller.Hash)
+		o.Units(1)
+		o.Label("call-update-call")
+		if out.Invoc[callee.Name] < 1 {
+			return fmt.Errorf("harness: caller %s (permissions %v): the first call of %s.%s was not made: %s", caller.Name, spec.Perms, callee.Name, c.Method, out)
+		}
+		if out.Halt || out.Invoc[callee.Name] != 1 {
+			return fmt.Errorf("caller %s (permissions %v) calls %s.%s, updates itself to a manifest without any permission for it and is called again in the same transaction: the second call was performed (%s) although no permission of the current manifest matches", caller.Name, spec.Perms, callee.Name, c.Method, out)
+		}
+		o.NonTrivial()
 		return nil
 	}
 	entry := "call"
